@@ -2,7 +2,7 @@
    the three spellings) and index steps [digits] returns exactly the value reached by following the names and
    indexes through the nested objects and arrays (with that location in accessor mode), and nothing when a
    name or index is missing on the way. *)
-From JP Require Import Peg Grammar Slice Text Tree Actions Json Eval WF Spec SortFacts EvalInv1 EvalInv4 EvalTop EndToEnd Codec KeyDefs KeyParse IdxParse SliceParse WildParse RecParse ChainParse.
+From JP Require Import Peg Grammar Slice Text Tree Actions Json Eval WF Spec SortFacts EvalInv1 EvalInv4 EvalTop EndToEnd Codec KeyDefs KeyParse IdxParse SliceParse UnionParse WildParse RecParse ChainParse.
 From Coq Require Import Lia.
 Open Scope list_scope.
 
@@ -10,7 +10,7 @@ Open Scope list_scope.
 Definition nav (v : value) (s : kstep) : option value :=
   match s with
   | SIdx ds => match v with VArr xs => nth_value xs (step_idx ds) | _ => None end
-  | SWild _ | SSlice _ _ _ => None
+  | SWild _ | SSlice _ _ _ | SUnion _ _ => None
   | _ => match v with VObj m => lookup m (step_key s) | _ => None end
   end.
 Fixpoint nav_chain (v : value) (steps : list kstep) : option value :=
@@ -19,12 +19,20 @@ Fixpoint nav_chain (v : value) (steps : list kstep) : option value :=
   | s :: r => match nav v s with Some x => nav_chain x r | None => None end
   end.
 Definition step_loc (s : kstep) : pstep := match s with SIdx ds => PIdx (step_idx ds) | _ => PKey (step_key s) end.
-Definition multi_step (s : kstep) : bool := match s with SWild _ | SSlice _ _ _ => true | _ => false end.
+Definition multi_step (s : kstep) : bool := match s with SWild _ | SSlice _ _ _ | SUnion _ _ => true | _ => false end.
 
 (* the values one step reaches from a value at a location: a name or an index reaches at most one, a wildcard all the
    members of an object in ascending key order, or all the elements of an array in index order *)
 (* a slice bound as Python sees it: None when omitted *)
 Definition bopt (t : list N) : option Z := match t with [] => None | _ :: _ => Some (step_idx t) end.
+
+(* the indexes one subscript of a union selects in an array of the given length, in order *)
+Definition sub_indexes (u : usub) (len : Z) : list Z :=
+  match u with
+  | UIdx t => py_index (step_idx t) len
+  | USlice a b c0 => py_slice (bopt a) (bopt b) (match c0 with Some t => bopt t | None => None end) len
+  | UWild => iota (Z.to_nat len) 0
+  end.
 
 Definition nav1 (s : kstep) (lv : list pstep * value) : list (list pstep * value) :=
   match s with
@@ -37,6 +45,12 @@ Definition nav1 (s : kstep) (lv : list pstep * value) : list (list pstep * value
       match snd lv with
       | VArr xs => flat_map (fun i => match nth_value xs i with Some x => [(fst lv ++ [PIdx i], x)] | None => [] end)
                             (py_slice (bopt a) (bopt b) (match c0 with Some t => bopt t | None => None end) (Z.of_nat (List.length xs)))
+      | _ => []
+      end
+  | SUnion u us =>
+      match snd lv with
+      | VArr xs => flat_map (fun v => flat_map (fun i => match nth_value xs i with Some x => [(fst lv ++ [PIdx i], x)] | None => [] end)
+                                               (sub_indexes v (Z.of_nat (List.length xs)))) (u :: us)
       | _ => []
       end
   | _ => match nav (snd lv) s with Some x => [(fst lv ++ [step_loc s], x)] | None => [] end
@@ -141,7 +155,7 @@ Section ChainAddr.
   Lemma sp_step s b next root p v : step_ok s = true -> small v ->
     sp (Node (step_kind s) b next) root (Some p, v) = flat_map (fwd b next root) (nav1 s (p, v)).
   Proof.
-    intros Hs Hsm. destruct s as [q k|k|ds|d|sa sb sc].
+    intros Hs Hsm. destruct s as [q k|k|ds|d|sa sb sc|u us].
     - cbn [step_kind nav1 nav step_loc fst snd]. cbn [Spec.sp snd fst]. destruct v; try reflexivity.
       destruct (lookup m (step_key (SBr q k))); [|reflexivity]. cbn [flat_map fwd fst snd ext_loc]. rewrite app_nil_r. destruct next; reflexivity.
     - cbn [step_kind nav1 nav step_loc fst snd]. cbn [Spec.sp snd fst]. destruct v; try reflexivity.
@@ -175,6 +189,26 @@ Section ChainAddr.
         rewrite Ec. rewrite flat_map_flat_map. apply flat_map_ext'. intros i. destruct (nth_value l i); [|reflexivity].
         cbn [flat_map fwd fst snd ext_loc]. rewrite app_nil_r. destruct next; reflexivity.
       + destruct sc as [t|]; [apply Hin; exact Hc|cbn; unfold in64, two63; lia].
+    - cbn [step_kind nav1 fst snd]. cbn [Spec.sp snd fst]. destruct v; try reflexivity.
+      cbn [step_ok] in Hs. apply andb_true_iff in Hs. destruct Hs as [_ Hat].
+      rewrite flat_map_map', flat_map_flat_map. apply flat_map_ext_in'. intros w Hw.
+      rewrite forallb_forall in Hat. specialize (Hat w Hw).
+      assert (Hin64 : forall t, atoi_ok t = true -> in64 (number (bound_idx t))).
+      { intros t Ht. destruct t as [|c1 r1]; [cbn; unfold in64, two63; lia|]. cbn [bound_idx number]. unfold step_idx. cbn [atoi_ok] in Ht.
+        destruct (atoi (c1 :: r1)) as [z|] eqn:Ez; [|discriminate Ht].
+        pose proof (StackActs.atoi_in64 _ _ Ez) as Hz. unfold in64b in Hz. apply andb_true_iff in Hz. destruct Hz as [Z1 Z2].
+        apply Z.leb_le in Z1. apply Z.ltb_lt in Z2. split; assumption. }
+      assert (Eg : get_indexes (sub_of w) (Z.of_nat (List.length l)) = IOk (sub_indexes w (Z.of_nat (List.length l)))).
+      { destruct w as [t|sa sb sc|]; cbn [usub_atoi sub_of sub_indexes] in *.
+        - apply SliceProofs.index_python; [exact (small_arr_len l Hsm)|]. destruct t as [|c1 r1]; [unfold step_idx; cbn; unfold in64, two63; lia|exact (Hin64 (c1 :: r1) Hat)].
+        - apply andb_true_iff in Hat. destruct Hat as [Hab Hc]. apply andb_true_iff in Hab. destruct Hab as [Ha Hb].
+          unfold slice_sub. rewrite (SliceProofs.slice_python (bound_idx sa) (bound_idx sb) _ (Z.of_nat (List.length l)) (small_arr_len l Hsm) (Hin64 sa Ha) (Hin64 sb Hb)).
+          + assert (Eo : forall t, opt (bound_idx t) = bopt t) by (intros [|c1 r1]; reflexivity). rewrite !Eo.
+            destruct sc as [t|]; [rewrite Eo; reflexivity|reflexivity].
+          + destruct sc as [t|]; [apply Hin64; exact Hc|cbn; unfold in64, two63; lia].
+        - reflexivity. }
+      rewrite Eg. rewrite flat_map_flat_map. apply flat_map_ext'. intros i. destruct (nth_value l i); [|reflexivity].
+      cbn [flat_map fwd fst snd ext_loc]. rewrite app_nil_r. destruct next; reflexivity.
   Qed.
 
   (* every value a step reaches from a small value is small *)
@@ -183,9 +217,9 @@ Section ChainAddr.
     intros Hsm. apply Forall_forall. intros [l x] Hin. cbn [snd].
     assert (Hnav : forall s0, In (l, x) (match nav v s0 with Some y => [(p ++ [step_loc s0], y)] | None => [] end) -> small x).
     { intros s0 H. destruct (nav v s0) as [y|] eqn:En; [|contradiction]. destruct H as [E|[]]. inversion E; subst.
-      destruct s0 as [q k|k|ds|d|sa sb sc]; cbn [nav] in En; destruct v; try discriminate En;
+      destruct s0 as [q k|k|ds|d|sa sb sc|u us]; cbn [nav] in En; destruct v; try discriminate En;
         try (eapply small_obj_lookup; eassumption); try (eapply small_arr_in; [exact Hsm|eapply nth_value_in; exact En]). }
-    destruct s as [q k|k|ds|d|sa sb sc]; cbn [nav1 fst snd] in Hin; try (exact (Hnav _ Hin)).
+    destruct s as [q k|k|ds|d|sa sb sc|u us]; cbn [nav1 fst snd] in Hin; try (exact (Hnav _ Hin)).
     - destruct v; try contradiction.
       + apply in_map_iff in Hin. destruct Hin as [[i y] [E Hiy]]. inversion E; subst.
         eapply small_arr_in; [exact Hsm|]. clear -Hiy. revert Hiy. generalize 0%Z. induction l0 as [|z zs IHz]; intros k Hiy; [contradiction|].
@@ -193,6 +227,9 @@ Section ChainAddr.
       + apply in_flat_map in Hin. destruct Hin as [k [_ Hk]]. destruct (lookup m k) as [y|] eqn:El; [|contradiction].
         destruct Hk as [E|[]]. inversion E; subst. eapply small_obj_lookup; eassumption.
     - destruct v; try contradiction. apply in_flat_map in Hin. destruct Hin as [i [_ Hi]].
+      destruct (nth_value l0 i) as [y|] eqn:En; [|contradiction]. destruct Hi as [E|[]]. inversion E; subst.
+      eapply small_arr_in; [exact Hsm|eapply nth_value_in; exact En].
+    - destruct v; try contradiction. apply in_flat_map in Hin. destruct Hin as [w [_ Hw]]. apply in_flat_map in Hw. destruct Hw as [i [_ Hi]].
       destruct (nth_value l0 i) as [y|] eqn:En; [|contradiction]. destruct Hi as [E|[]]. inversion E; subst.
       eapply small_arr_in; [exact Hsm|eapply nth_value_in; exact En].
   Qed.
@@ -219,7 +256,7 @@ Section ChainAddr.
     assert (E : sp (Node (KRec (fst (rec_flags s)) (snd (rec_flags s))) b1 (OSome (Node (step_kind s) b2 next))) root (Some p, v) =
                 flat_map (fun cu => sp (Node (step_kind s) b2 next) root cu) (containers (Some p) v)).
     { cbn [Spec.sp fst snd]. apply flat_map_ext'. intros [l x]. cbn [snd].
-      destruct s as [q k|k|ds|d|sa sb sc]; cbn [rec_flags fst snd step_kind]; destruct x; reflexivity. }
+      destruct s as [q k|k|ds|d|sa sb sc|u us]; cbn [rec_flags fst snd step_kind]; destruct x; reflexivity. }
     rewrite E. rewrite flat_map_flat_map. apply flat_map_ext_in'. intros cu Hin.
     pose proof (containers_some v p Hsm) as Hc. rewrite Forall_forall in Hc. destruct (Hc cu Hin) as [[l Hl] Hsx].
     destruct cu as [ol x]. cbn [fst snd] in *. subst ol. unfold cu_loc. cbn [fst snd].
@@ -230,13 +267,13 @@ Section ChainAddr.
   Proof.
     unfold pres. cbn [flat_map]. destruct x as [s|s]; cbn [rstep_pre app fin fst snd seg].
     - eexists (pre_basic cfg s), _. split; [reflexivity|]. reflexivity.
-    - eexists _, _. split; [reflexivity|]. destruct s as [q k|k|ds|[|]|sa sb sc]; reflexivity.
+    - eexists _, _. split; [reflexivity|]. destruct s as [q k|k|ds|[|]|sa sb sc|u us]; reflexivity.
   Qed.
   Lemma chain_node_seg x r : exists b1 b2, chain_node cfg (x :: r) = seg x b1 b2 (fin (pres cfg r)) /\ accessor b2 = cfg_accessor cfg.
   Proof.
     unfold chain_node, pres. cbn [flat_map]. destruct x as [s|s]; cbn [rstep_pre app fin fst snd seg].
     - eexists (pre_basic cfg s), _. split; [reflexivity|]. reflexivity.
-    - eexists _, _. split; [reflexivity|]. destruct s as [q k|k|ds|[|]|sa sb sc]; reflexivity.
+    - eexists _, _. split; [reflexivity|]. destruct s as [q k|k|ds|[|]|sa sb sc|u us]; reflexivity.
   Qed.
 
   Lemma sp_chain : forall r x b1 b2, forallb rstep_ok (x :: r) = true -> accessor b2 = cfg_accessor cfg ->
